@@ -7,6 +7,7 @@ ristretto.sage's `decodeSpec` (see `Spec/Encoding.lean`).  Byte strings are list
 The nine entry points of the Rust API all reduce to `decodeSlice` / `decode32` (that forwarding is one line each and
 is validated by the correspondence run over every entry point × every near-miss class).
 -/
+import Decaf.BuildsCmd
 import Decaf.Lemmas.RoundTrip
 
 namespace C02
@@ -125,3 +126,10 @@ example : (decode32 sqrtRatioArk (toLeBytes q 32)).toOption.isSome = false := by
 example : (decode32 sqrtRatioArk (toLeBytes 1 32)).toOption.isSome = false := by decide +kernel
 
 end C02
+
+/-! ### the statements for the two shipped routines (`C09.ark_contract`, `C09.min_contract` discharge the premise) -/
+instantiate_builds C02.decode_accepts_iff
+instantiate_builds C02.decode_eq_spec
+instantiate_builds C02.decode_error_is_encoding
+instantiate_builds C02.rejects_negative
+instantiate_builds C02.rejects_minus_one
